@@ -113,6 +113,24 @@ Fixpoint pull_params (fuel : nat) (n : option nat) (convs : list conv) (p : psta
     end
   end.
 
+(* ParamParser::validate: the whole parameter block must decode (what Params::next would do for
+   every parameter, without the shim): otherwise the command is refused before on_execute *)
+Fixpoint pull_all_ok (fuel : nat) (p : pstate) : bool :=
+  match fuel with
+  | O => true
+  | S f =>
+    match params_next fpext p with
+    | ROk (None, _) => true
+    | ROk (Some _, p') => pull_all_ok f p'
+    | _ => false
+    end
+  end.
+Definition pstate_of (sd : stmt) (params : bytes) : pstate :=
+  {| p_params := sd_params sd; p_input := params; p_nullmap := None; p_col := 0;
+     p_long := sd_long sd; p_bound := sd_bound sd |}.
+Definition params_valid (sd : stmt) (params : bytes) : bool :=
+  pull_all_ok (S (N.to_nat (sd_params sd))) (pstate_of sd params).
+
 Definition on_execute (id : N) (sd : stmt) (params : bytes) (sc : scripts) : M (stmt * scripts) :=
   let '(x, sc') := pop_x sc in
   log_call (CExecute id) ;;;
@@ -152,6 +170,7 @@ Definition handle (cmd : command) (s : ss) : M ss :=
       match lookup id st with
       | None => fail EInvalidData
       | Some sd =>
+          if negb (params_valid sd params) then fail EInvalidData else
           x <- on_execute id sd params sc ;;
           let '(sd', sc') := x in
           (* state.long_data.clear() *)
